@@ -94,6 +94,10 @@ for _p, _t in (("C11", "has_match/is_exact_match/get_matches(_and_pos)/iterate_*
     CHECKS[_p] = ("symbolic execution (CrossHair/z3) of the real wrapper methods on a symbolic source text, all paths; oracle = direct re on the emitted text; concrete points with the real re",
                   "For concrete patterns (empty-width, prefix alternation, lazy, anchors, DOTALL, look-arounds, mixed named/unnamed/optional/nested/empty groups) and EVERY source text up to the "
                   "stated length (every code point): " + _t + ".", _E3NOTE, "DESIGN.md §2 " + _p)
+for _p in ("C06", "C07"):
+    CHECKS[_p] = (CHECKS[_p][0] + "; symbolic execution (CrossHair/z3) with symbolic argument characters and a symbolic candidate code point", CHECKS[_p][1] +
+                  " CrossHair harnesses additionally make the argument character(s) symbolic: for every argument character and every candidate the membership read from the real "
+                  "parser's tree equals the requested set (all paths confirmed).", CHECKS[_p][2] + " E1 part: " + _E1NOTE, CHECKS[_p][3])
 CHECKS["C20"] = ("symbolic execution (CrossHair/z3) of one builder operation on an object with symbolic literal content (inductive step); seed-dependent texts decided equivalent by bounded SMT (z3) exact encoding; two-step histories enumerated concretely",
                  "For EVERY literal character, each builder operation leaves its operand's text / inferred type / repeatability unchanged and returns what a fresh equal object returns (all paths); "
                  "class operands likewise for every character. About 4k expressions rebuilt under several real hash seeds give the same text or texts proven equivalent on all texts up to the bound. "
@@ -109,7 +113,7 @@ m = {
            "baseline_off_cmd": "cd /repo && /venv/bin/python -m pytest -ra -q -p no:cacheprovider --timeout=900 --continue-on-collection-errors",
            "source_commits": [], "add_only": True},
  "engines": [
-   {"name": "symx", "path": "vlib/symx/", "serves_properties": ["C01", "C03", "C04", "C09", "C10", "C11", "C12", "C13", "C14", "C20"],
+   {"name": "symx", "path": "vlib/symx/", "serves_properties": ["C01", "C03", "C04", "C06", "C07", "C09", "C10", "C11", "C12", "C13", "C14", "C20"],
     "kind_free_text": "CrossHair symbolic execution of the real pregex constructors together with CPython's pure-Python re parser; symbolic characters / ints; "
                       "per-path concolic self-validation; counterexamples followed up by rexsat and replayed"},
    {"name": "rexsat", "path": "vlib/rexsat.py", "serves_properties": sorted(CHECKS),
